@@ -23,7 +23,7 @@ type Ctx struct {
 	ev         Hash
 	evList     []string
 	C          map[string]int64
-	sets       map[string]map[uint64]struct{}
+	sets       map[string]*DSet
 	known      map[string]*KnownHit
 	sample     interface{}
 	Steps      int64
@@ -39,7 +39,7 @@ type Ctx struct {
 type stepLimit struct{}
 
 func newCtx(prop, tier string, t *Tape, render bool) *Ctx {
-	c := &Ctx{Prop: prop, Tier: tier, T: t, Render: render, ev: fnvOff, C: map[string]int64{}, sets: map[string]map[uint64]struct{}{}, StepLimit: 5_000_000}
+	c := &Ctx{Prop: prop, Tier: tier, T: t, Render: render, ev: fnvOff, C: map[string]int64{}, sets: map[string]*DSet{}, StepLimit: 5_000_000}
 	if render {
 		c.R = map[string]interface{}{}
 	}
@@ -66,10 +66,10 @@ func (c *Ctx) Eval()                      { c.C["evaluations"]++ }
 func (c *Ctx) Distinct(set string, h Hash) {
 	s := c.sets[set]
 	if s == nil {
-		s = map[uint64]struct{}{}
+		s = NewDSet()
 		c.sets[set] = s
 	}
-	s[uint64(h)] = struct{}{}
+	s.Add(uint64(h))
 }
 
 // Put records a rendered field (replay files, samples).
@@ -86,12 +86,10 @@ func (c *Ctx) merge(o *Ctx) {
 	for k, s := range o.sets {
 		d := c.sets[k]
 		if d == nil {
-			d = map[uint64]struct{}{}
+			d = NewDSet()
 			c.sets[k] = d
 		}
-		for h := range s {
-			d[h] = struct{}{}
-		}
+		d.Merge(s)
 	}
 	c.VirtualNs += o.VirtualNs
 	c.C["yield_steps"] += o.Steps
@@ -386,7 +384,7 @@ func knownLine(key string) string {
 // ---------------------------------------------------------------- evidence
 
 func writeEvidence(path string, p *Property, tier string, seed uint64, cases int, counters map[string]int64,
-	sets map[string]map[uint64]struct{}, samples []interface{}, known map[string]KnownHit, det int, virt int64,
+	sets map[string]*DSet, samples []interface{}, known map[string]KnownHit, det int, virt int64,
 	wall float64, nviol int, instrFile string, viol *ViolationReport) {
 	if path == "" {
 		return
@@ -397,7 +395,7 @@ func writeEvidence(path string, p *Property, tier string, seed uint64, cases int
 	}
 	cov := map[string]interface{}{
 		"evaluations":                  evals,
-		"distinct_nontrivial":          len(sets["nontrivial"]),
+		"distinct_nontrivial":          dcount(sets["nontrivial"]),
 		"rule":                         p.Rule,
 		"samples":                      samples,
 		"seeded_cases":                 cases,
@@ -425,10 +423,20 @@ func writeEvidence(path string, p *Property, tier string, seed uint64, cases int
 	cov["probes"] = probes
 	cov["counters"] = other
 	reach := map[string]int{}
+	exactAll := true
 	for k, s := range sets {
-		if k != "nontrivial" {
-			reach[k] = len(s)
+		n, exact := s.Count()
+		if !exact {
+			exactAll = false
 		}
+		if k != "nontrivial" {
+			reach[k] = n
+		}
+	}
+	if exactAll {
+		cov["distinct_counting"] = "exact (hash sets)"
+	} else {
+		cov["distinct_counting"] = "sets larger than 150000 are counted with HyperLogLog (2^14 registers); the reported number is the estimate minus three standard errors (2.4 %), i.e. a conservative lower estimate"
 	}
 	cov["distinct_reach"] = reach
 	if len(known) > 0 {
@@ -462,9 +470,8 @@ func writeEvidence(path string, p *Property, tier string, seed uint64, cases int
 		"wall_s":      wall,
 		"violations":  nviol,
 	}
-	b, _ := json.MarshalIndent(ev, "", " ")
 	os.MkdirAll(dirOf(path), 0o755)
-	os.WriteFile(path, b, 0o644)
+	os.WriteFile(path, prettyJSON(ev), 0o644)
 }
 
 func dirOf(p string) string {
@@ -472,4 +479,12 @@ func dirOf(p string) string {
 		return p[:i]
 	}
 	return "."
+}
+
+func dcount(d *DSet) int {
+	if d == nil {
+		return 0
+	}
+	n, _ := d.Count()
+	return n
 }
